@@ -422,8 +422,74 @@ def check_optimizer(chk, d, entries, n_synth=None):
     return stats
 
 
-def check_certificates(chk, d, entries):
-    raise NotImplementedError
+def _flag(reply, key):
+    for item in reply:
+        if isinstance(item, list) and item and item[0] == key:
+            return item[1] == "true"
+    return None
+
+
+def check_certificates(chk, d, entries, caps=None):
+    """The decidable side conditions of the soundness theorems on every REAL part list, and the search
+    for real kernels on which check_dependency returns False for a factor that mentions the inner index."""
+    if caps is None:
+        caps, _ = capture(entries)
+    stats = {"part_lists": 0, "cert_true": 0, "fuse_sections_needed": 0, "fuse_loops_sections": 0,
+             "licm_sections": 0, "licm_hoisting_sections": 0, "candidates": 0, "missed_dependencies": 0}
+    seen = set()
+    with _OptDriver(d) as od:
+        for c in caps:
+            if c.pre is None or not c.pre:
+                continue
+            if c.key in seen:
+                continue
+            seen.add(c.key)
+            stats["part_lists"] += 1
+            r = od.ask("(opt_cert " + " ".join(c.pre) + ")")
+            if r[0] != "ok":
+                chk.disagree("optimiser certificate: driver error", {"input": c.name, "reply": r})
+                continue
+            ok = r[1] == "true"
+            secs = [x for x in r if isinstance(x, list) and x and x[0] == "sections"][0][1:]
+            nfuse = sum(1 for x in secs if _flag(x, "fuse_applies"))
+            nlicm = sum(1 for x in secs if _flag(x, "licm_applies"))
+            stats["fuse_loops_sections"] += nfuse
+            stats["licm_sections"] += nlicm
+            nontriv = (nfuse or nlicm or c.post != c.pre)
+            chk.case("optimiser_certificate", c.key if nontriv else None,
+                     sample={"kind": "certificate", "input": c.name, "cert": ok, "fuse_loops_sections": nfuse,
+                             "licm_sections": nlicm} if (nontriv and len(chk.samples) < 11) else None)
+            if ok:
+                stats["cert_true"] += 1
+            else:
+                bad = [k for k in ("fs_coefficient", "fs_jacobian", "context") if _flag(r, k) is False]
+                bad += [f"{x[0]}:{k}" for x in secs for k in ("fuse_loops", "licm") if _flag(x, k) is False]
+                chk.disagree("a real part list does not satisfy the certificate of optimize_sound "
+                             "(side condition of the optimiser theorems fails on generated code)",
+                             {"input": c.name, "failed": bad, "parts": [p[:400] for p in c.pre][:6]})
+            # search: does check_dependency miss a dependency on a real kernel?
+            for p in c.pre:
+                if "(licm)" not in p and " licm)" not in p:
+                    continue
+                rr = od.ask("(licm_candidates " + p + ")")
+                if rr[0] != "ok" or rr[1] == "none":
+                    continue
+                hoists = False
+                for row in rr[2:]:
+                    if row[1] == "true":
+                        stats["candidates"] += 1
+                        if row[2] == "true":
+                            stats["missed_dependencies"] += 1
+                            chk.violation("optimiser:licm:check_dependency-misses-inner-index",
+                                          "check_dependency returns False for a factor of a real kernel that depends on the inner loop index; licm hoists it",
+                                          {"input": c.name, "inner_index": rr[1], "factor": sexp.dumps(_requote(row[0])),
+                                           "section": p[:2000]})
+                if "temp_0" in " ".join(c.post or []):
+                    hoists = True
+                if hoists:
+                    stats["licm_hoisting_sections"] += 1
+    chk.notes["optimizer_certificates"] = stats
+    return stats
 
 
 def main(argv=None):
@@ -443,10 +509,7 @@ def main(argv=None):
     if not a.no_lean and OPT_THEOREMS:
         chk.lean(OPT_MODULE, OPT_THEOREMS, extra_files=OPT_FILES)
     check_optimizer(chk, None, ents)
-    try:
-        check_certificates(chk, None, ents)
-    except NotImplementedError:
-        pass
+    check_certificates(chk, None, ents)
     print("notes:", {k: v for k, v in chk.notes.items()})
     print(f"evaluations={chk.evaluations} nontrivial={len(chk.nontrivial)} programs={chk.programs} "
           f"obligations={sum(1 for o in chk.obligations if o[2])}/{len(chk.obligations)} "
